@@ -103,6 +103,9 @@ func armOperators(c *driver.Ctx) {
 				if form.skipHugeRepeat && (isBulky(x) || isBulky(y)) {
 					continue // a repeat of a 64 KiB+ operand is an allocation test, not an operator test
 				}
+				if (x.tags == "huge" || y.tags == "huge" || z.tags == "huge") && (strings.Contains(form.body, "(*") || strings.Contains(form.body, "(**") || strings.Contains(form.body, " for ")) {
+					continue // expanding or traversing 2^31+ elements is the excluded huge allocation, and cannot be interrupted
+				}
 				if isBulky(x) && isBulky(y) {
 					continue // 10^5 x 10^5 element pairs: a quadratic-time test (minutes per call), not an operator test
 				}
@@ -110,7 +113,7 @@ func armOperators(c *driver.Ctx) {
 				text := fmt.Sprintf("%s with a=%s:%s b=%s:%s c=%s:%s", form.name, x.name, describe(x.v), y.name, describe(y.v), z.name, describe(z.v))
 				c.Note("key=C02 crash operator %s\n%s", form.name, text)
 				nilAt := ""
-				res := guarded(2*time.Second, func(th *starlark.Thread) error {
+				res := guarded(6*time.Second, func(th *starlark.Thread) error {
 					v, err := starlark.Call(th, fn, starlark.Tuple{x.v, y.v, z.v}, nil)
 					if err == nil {
 						nilAt = findNil(v, "result", new(int))
